@@ -52,7 +52,29 @@ pub fn run(data: &[u8], ctx: &mut Ctx) -> Outcome {
     let recips: Vec<&dyn Encrypter> = listed.iter().map(|i| &pool.enc[*i].public as &dyn Encrypter).collect();
 
     let subject_encryptable = !matches!(m.subject(), M::Encrypted(..) | M::Elided(_));
-    let enc = nopanic!(ctx, e.encrypt_subject_to_recipients(&recips), "encrypt", "C10/encrypt");
+    // the *_opt variants (fixed test nonce) are the same operations; which route is taken is a function
+    // of the recipient list, so no further choice is drawn
+    let test_nonce = bc_components::Nonce::from_data_ref([0x5a; 12]).unwrap();
+    let route = listed.iter().sum::<usize>() % 3;
+    ctx.class(["route:encrypt_subject_to_recipients", "route:encrypt_subject_to_recipients_opt", "route:encrypt_subject+add_recipient_opt"][route]);
+    let enc = nopanic!(
+        ctx,
+        match route {
+            0 => e.encrypt_subject_to_recipients(&recips),
+            1 => e.encrypt_subject_to_recipients_opt(&recips, Some(&test_nonce)),
+            _ => {
+                let ck = SymmetricKey::new();
+                e.encrypt_subject(&ck).map(|mut x| {
+                    for r in &recips {
+                        x = x.add_recipient_opt(*r, &ck, Some(&test_nonce));
+                    }
+                    x
+                })
+            }
+        },
+        "encrypt",
+        "C10/encrypt"
+    );
     if !subject_encryptable {
         if matches!(m.subject(), M::Encrypted(..)) {
             check!(ctx, enc.is_err(), "encrypt", "C10/encrypt", "encrypt_subject_to_recipients accepted an already encrypted subject");
